@@ -129,6 +129,9 @@ def run_c07(ctx, tier=None, seed=None):
     std_pipe(ctx, 'ops-same-base', 'fl', 'ops', 'same', tier=tier, seed=seed, only=r'^bin [^ ]+ (add|sub|rem|adda|suba|rema|mul|div|tt[^ ]*|ti[^ ]*) ')
     # the operator impls have feature-gated twins: the same cases again without autoconvert
     std_pipe(ctx, 'hist-all-types-noauto', 'wide-noauto', 'hist', '', tier=tier, seed=seed, only=only)
+    if (tier or ctx.tier) == 'thorough':
+        # the remaining storage types of the crate (u8 i8 u16 i16 u128 i128 usize rational32 rational): a fifth harness build
+        std_pipe(ctx, 'hist-wide2', 'wide2', 'hist', '', tier=tier, seed=seed, only=r'^(b2|sc|un) (i8|i16|i128|u8|u16|u128|usize|rational32|rational) (%s) [a-z_]+ si ' % forms)  # default base units only: the coefficients of the other base sets (1000, 3600, …) are not representable in 8-bit storage
 
 
 spec('C07', run=run_c07, search=search_with(run_c07),
@@ -146,6 +149,8 @@ def run_c10(ctx, tier=None, seed=None):
     # the comparison impls have feature-gated twins: the same-base cases again without autoconvert
     std_pipe(ctx, 'hist-cmp-noauto', 'wide-noauto', 'hist', '', tier=tier, seed=seed, only=r'^b2 [^ ]+ (%s) ' % CMP_FORMS)
     std_pipe(ctx, 'ops-cmp-noauto', 'fl-noauto', 'ops', 'same', tier=tier, seed=seed, only=r'^bin [^ ]+ (eq|ne|lt|le|gt|ge|pcmp) ')
+    if (tier or ctx.tier) == 'thorough':
+        std_pipe(ctx, 'hist-cmp-wide2', 'wide2', 'hist', '', tier=tier, seed=seed, only=r'^b2 (i8|i16|i128|u8|u16|u128|usize|rational32|rational) (%s) [a-z_]+ si ' % CMP_FORMS)
 
 
 spec('C10', run=run_c10, search=search_with(run_c10),
